@@ -492,7 +492,10 @@ int main(int argc, char** argv) {
             // between phases, nothing in flight: punch a range out of a cached file and / or start over with a new pool instance
             if (rng.coin(30)) {
                 int f = (int)rng.below(p.nf); std::string nm = "/f" + std::to_string(f);
+                // CachedFile::fallocate: "offset and len must be aligned 4k, otherwise it's useless" - it aligns a finite range outwards
+                // itself; with len = -1 (evict to the end) the offset is used as given, so the harness passes an aligned one
                 uint64_t off = pick_off(rng, g_size[f], p.ru); int64_t len = rng.coin(20) ? -1 : (int64_t)(1 + rng.below(3 * p.ru));
+                if (len < 0) off = off / 4096 * 4096;
                 auto h = fs->open(nm.c_str(), O_RDONLY, 0644);
                 if (h) {
                     vt::Ev("PunchInv").i("t", 9).i("f", f).u("off", off).i("len", len);
